@@ -225,7 +225,7 @@ impl FarmGen {
             2 => Some(s + 1),
             // long farms: with a small budget the per-epoch rate is small and the part of the
             // budget lost to rounding can exceed it
-            3 => Some(s + self.rng.gen_range(30..400)),
+            3 => Some(s + if self.rng.gen_range(0..4) == 0 { self.rng.gen_range(400..1200) } else { self.rng.gen_range(30..400) }),
             // practically open-ended farms: nothing bounds the end epoch
             4 if self.rng.gen_bool(0.4) => Some(*[300_000_000_000_000u64, u64::MAX / 2, u64::MAX - 1, u64::MAX].choose(&mut self.rng).unwrap()),
             _ => Some(s + self.rng.gen_range(2..12)),
@@ -303,9 +303,18 @@ impl FarmGen {
         let farm = f.farms.values().collect::<Vec<_>>().choose(&mut self.rng).cloned()?.clone();
         let sender = if self.rng.gen_range(0..5) == 0 { self.user(w) } else { farm.owner.clone() };
         let rate = farm.emission_rate.u128().max(1);
-        let amount = match self.rng.gen_range(0..5) {
+        let amount = match self.rng.gen_range(0..6) {
             0 => rate * self.rng.gen_range(1..5) + 1, // not a multiple
             1 => rate,
+            // very many epochs, up to and beyond what an epoch number can hold
+            2 => {
+                let epochs = *[1000u128, 1 << 32, (1 << 63) - 1, u64::MAX as u128 - self.rng.gen_range(0..400), u64::MAX as u128 + 1, (1u128 << 64) + self.rng.gen_range(1..50), 1u128 << 70].choose(&mut self.rng).unwrap();
+                let bal = w.balance(&sender, &farm.farm_asset.denom);
+                match rate.checked_mul(epochs) {
+                    Some(a) if a <= bal => a,
+                    _ => rate * self.rng.gen_range(6..400),
+                }
+            }
             _ => rate * self.rng.gen_range(1..6),
         };
         let declared = if self.rng.gen_range(0..10) == 0 { amount + 1 } else { amount };
